@@ -75,9 +75,12 @@ def run(ctx):
     n = 90 if quick else 3000
     terms, kept = [], []
     for i in range(n):
-        p = dprog.gen_dprogram(ctx.rng, with_order2=False, plain=("spoil", "wait", "pd"))
+        # every third program is stepped out of place with differentiable operators only (the out-of-place
+        # path of every non-differentiable operator, Wait included, drops the partials: known finding of C09)
+        oop = (i % 3 == 2)
+        p = dprog.gen_dprogram(ctx.rng, with_order2=False, plain=() if oop else ("spoil", "wait", "pd"))
         try:
-            snaps = dprog.run_impl_d(p)
+            snaps = dprog.run_impl_d(p, inplace=not oop)
         except Exception as e:
             ctx.report("implementation raised %s on a valid differentiation program: %s" % (type(e).__name__, str(e)[:200]),
                        {"dcase": repr(p)}, found_input=True, signature={"raises": type(e).__name__})
